@@ -50,7 +50,8 @@ def generate(seed, tier):
     nobj = r.randint(3, 9)
     objs = []
     for k in range(nobj):
-        objs.append({'kind': r.choice(KINDS), 'm': 'ob%d' % k, 'label': ('lab%d' % k) if r.random() < 0.7 else None,
+        spell = r.choice(['lab%d', 'lab%d', 'sec:a%d', 'eq-1-%d', '9%d', 'my lab %d', 'Fig.%d'])     # no '_' : a label argument is not read verbatim (in math '_' is a subscript), which is argument parsing (C05), not resolution
+        objs.append({'kind': r.choice(KINDS), 'm': 'ob%d' % k, 'label': (spell % k) if r.random() < 0.7 else None,
                      'lsp': r.random() < 0.15})
     labels = [o['label'] for o in objs if o['label']]
     refs = []
@@ -61,7 +62,8 @@ def generate(seed, tier):
         else:
             lab = r.choice(labels)
         refs.append({'m': 'rf%d' % k, 'label': lab, 'page': r.random() < 0.2,
-                     'place': r.choice(['body', 'body', 'body', 'title', 'footnote']), 'rsp': r.choice([0, 0, 0, 1, 2])})
+                     'place': r.choice(['body', 'body', 'body', 'title', 'footnote', 'textbf', 'cell', 'item']),
+                     'rsp': r.choice([0, 0, 0, 1, 2])})
     if labels and r.random() < 0.5:          # force several references to one label
         lab = r.choice(labels)
         for k in range(2):
@@ -168,8 +170,15 @@ def _ref_tex(x, dot='.'):
 
 
 def _ref_par(x):
-    if x.get('place') == 'footnote':
+    place = x.get('place')
+    if place == 'footnote':
         return 'Foot\\footnote{fn %s} note.' % _ref_tex(x)
+    if place == 'textbf':
+        return 'Bold \\textbf{b \\emph{%s}} text.' % _ref_tex(x)
+    if place == 'cell':
+        return '\\begin{tabular}{ll}c1 & %s\\end{tabular}' % _ref_tex(x, '')
+    if place == 'item':
+        return '\\begin{itemize}\\item %s\\end{itemize}' % _ref_tex(x)
     return _ref_tex(x)
 
 
@@ -187,6 +196,9 @@ def compile_doc(events):
         inner = [x for x in inner if not any(x is y for y in intitle)]
         ttl = ''.join(' ' + _ref_tex(x, '') for x in intitle)
         half = len(inner) // 2
+        # inside a numbered object a reference is never wrapped in a list of its own: its \item would become the
+        # current object and take the \label that follows
+        inner = [dict(x, place='body') if x.get('place') == 'item' else x for x in inner]
         pre = ' '.join(_ref_par(x) for x in inner[:half])
         post = ' '.join(_ref_par(x) for x in inner[half:])
         lab = ('\\label{%s}' % ((' %s ' % o['label']) if o.get('lsp') else o['label'])) if o['label'] else ''
